@@ -19,7 +19,7 @@ import (
 // C15 — passwords never appear in printed statements or sanitized query text.
 
 var c15pwAlpha = []string{"z", "q", " ", "'", `"`, `\`, "=", ";", "\t", "\n"}
-var c15users = []string{"u0", "my user", "a=b", "with password", "select", `x"y`, "for", "é", `RAW:abc"def"`, `RAW:for"='s'"`}
+var c15users = []string{"u0", "my user", "a=b", "with password", "select", `x"y`, "for", "é", `RAW:abc"def"`, `RAW:for"='s'"`, "\u212a\u212a\u212a", "\u0130\u023a\u1e9e"}
 var c15must = []string{" ", "  ", "\t", "\n", "\r\n", " /*c*/ ", " --c\n", "/**/", " /*/ c */ ", "/* 'q' \"z\" */", "/*/", " /****/ ", "\f", "\u00a0", "\v", " -- c\r"}
 var c15may = []string{" ", "", "  ", "\n", " /*c*/ ", "--c\n", "/*/ c */", " /* ' */ ", "/*/", "\f", "\u00a0", " /* c ***/ "}
 
@@ -158,19 +158,27 @@ func c15build(c *xplore.Ctx, pws []string) c15case {
 			out.spans[i][1] += n
 		}
 	}
-	switch c.Choose(7) {
-	case 1:
+	switch k := c.Choose(7 + len(c15before)); {
+	case k >= 7:
+		// after a statement whose own text contains quotes, slashes or the words of the clause in places where
+		// they mean something else (regex literals, divisions, casts, strings, comments)
+		pre := c15before[k-7] + "; "
+		out.text = pre + out.text
+		shift(len(pre))
+		out.feats = append(out.feats, "after-statement-with-regex-or-division")
+		return out
+	case k == 1:
 		pre := "SELECT a FROM m; "
 		out.text = pre + out.text
 		shift(len(pre))
 		out.feats = append(out.feats, "after-another-statement")
-	case 2:
+	case k == 2:
 		out.text += "; SELECT a FROM m"
 		out.feats = append(out.feats, "before-another-statement")
-	case 3:
+	case k == 3:
 		out.text += ";SELECT a FROM m"
 		out.feats = append(out.feats, "before-another-statement-no-space")
-	case 4, 5:
+	case k == 4 || k == 5:
 		sep := "; "
 		if c.TotalCost() >= 0 && len(out.feats) >= 0 {
 		}
@@ -185,7 +193,7 @@ func c15build(c *xplore.Ctx, pws []string) c15case {
 			out.spans = append(out.spans, [2]int{sp[0] + base, sp[1] + base})
 		}
 		out.pws = append(out.pws, second.pws...)
-	case 6:
+	case k == 6:
 		out.text += ";SET PASSWORD FOR u2 = 'zqq'"
 		i := strings.LastIndex(out.text, "'zqq'")
 		out.spans = append(out.spans, [2]int{i, i + 5})
@@ -212,6 +220,15 @@ func c15marker() string {
 		}()
 	})
 	return c15markerText
+}
+
+// c15before: statements that may precede a password statement in the same text.
+var c15before = []string{
+	`SELECT * FROM /a"b/`, `SELECT a FROM m WHERE h =~ /it's/ AND b = 'x'`, `SELECT a / b, x::field / 2, (a) / 2, true / 2 FROM m WHERE c = '/' AND d = "/"`,
+	`SELECT a FROM m WHERE h !~ /a\/'b/`, `SELECT /x"/, mean(/y'/) FROM db.rp./'/ GROUP BY /"/`, `SHOW TAG VALUES WITH KEY =~ /'/`,
+	`SELECT a FROM m WHERE s = 'with password \'' AND "set password for" = 1 -- '` + "\n",
+	// letters whose lower-case form has another length in UTF-8 (offsets computed on a folded copy go wrong)
+	"SELECT a FROM m WHERE s = '\u212a\u212a\u212a\u212a' /* \u0130\u0130\u023a\u023e */",
 }
 
 func c15expected(cs c15case) string {
